@@ -1,2 +1,2 @@
 From Quill Require Import Backend.BEDefs Backend.BEExec.
-Definition roots_be := (be_run_enc).
+Definition roots_be := (be_run_enc, lvl_run_enc).
